@@ -18,7 +18,8 @@
    normalised there (interval 0, no out-of-memory events: it does not influence
    the behaviour). *)
 From Coq Require Import Lia.
-From Torf Require Import Base Pipeline PipelineProofs FlowProofs ThreadProofs DeadlockProofs PipeExplore PipeExploreProofs NormProofs PipeConfigs.
+From Coq Require Import Permutation.
+From Torf Require Import Base Pipeline PipelineProofs FlowProofs ThreadProofs DeadlockProofs ConservationProofs PipeExplore PipeExploreProofs NormProofs PipeConfigs.
 Open Scope Z_scope.
 
 (* soundness of the exploration: what the checker accepts holds for every reachable state *)
@@ -59,6 +60,26 @@ Theorem C03_no_deadlock_unbounded : forall c s,
   (1 <= cf_hashers c)%nat -> reach c s -> s_mdone s = false -> options c s <> [].
 Proof. exact no_deadlock. Qed.
 Print Assumptions C03_no_deadlock_unbounded.
+
+(* UNBOUNDED: no piece is ever lost between the reader and the collector.  In every state reachable under any
+   schedule -- any number of hashers and pieces, any callback plan (incl. cancelling and raising ones), read
+   fault, refused additional hasher, out-of-memory handling, any clock -- the pieces the reader has handed over so
+   far (0 .. s_ridx s - 1) are, each exactly once, in the piece queue, in the hands of a hasher, in the hash queue
+   or with the collector ([indices s] lists these places).  Invariant (proofs/ConservationProofs.v): the number
+   of piece indexes in those places equals the reader's counter, and a hasher that is not running holds
+   nothing; with "no index twice" and "every index below the counter" (FlowProofs.v) this is a permutation. *)
+Theorem C03_no_piece_lost_unbounded : forall c s,
+  (1 <= cf_hashers c)%nat -> reach c s ->
+  Permutation (indices s) (map Z.of_nat (seq 0 (Z.to_nat (s_ridx s)))).
+Proof. exact no_piece_lost. Qed.
+Print Assumptions C03_no_piece_lost_unbounded.
+
+(* non-vacuity: six pieces, two hashers: states in the middle of a run, pieces spread over the queues *)
+Example C03_no_piece_lost_example :
+  let cfg := mk (map RPiece [11; 12; 13; 14; 15; 16]) 6 2 CbQuiet [] None in
+  map (fun f => let s := auto_run f cfg (init cfg) in (s_ridx s, indices s, s_mdone s)) [20; 40; 200]%nat =
+  [(3, [2; 0; 1], false); (6, [5; 4; 3; 0; 1; 2], false); (6, [0; 1; 2; 3; 4; 5], true)].
+Proof. vm_compute. reflexivity. Qed.
 
 (* reading goodb *)
 Theorem C03_no_deadlock : forall c ref mf rs s,
